@@ -289,7 +289,7 @@ class Prover:
             return Lin(0, {("v", l): 1})
         if d.kind == "call":
             c = d.call
-            if re.search(r"as std::convert::(Into|From)<.*>>::(into|from)$", c.callee_path) and len(c.args) == 1:
+            if re.search(r"as std::convert::(Into|From)<.*>>::(into|from)$|<impl std::convert::From<\w+> for \w+>::from$", c.callee_path) and len(c.args) == 1:
                 a = c.args[0]
                 ta = self.body.ty(a["ty"]) if a["k"] == "const" else (self.body.local_ty(a["place"]["l"]) if not a["place"]["p"] else {})
                 tr = self.body.local_ty(l)
@@ -455,6 +455,20 @@ class Prover:
                     return (1 << 63) - 1
                 if re.search(r"^stun_rs::common::padding$", p):
                     return 3
+                if re.search(r"as std::convert::(Into|From)<.*>>::(into|from)$|<impl std::convert::From<\w+> for \w+>::from$", p) and len(d.call.args) == 1 and tyub is not None:
+                    # widening (or same-width) conversion between unsigned integers: value-preserving
+                    a = d.call.args[0]
+                    if a["k"] == "const":
+                        ta = self.body.ty(a["ty"])
+                    elif not a["place"]["p"]:
+                        ta = self.body.local_ty(a["place"]["l"])
+                    else:
+                        last = a["place"]["p"][-1]
+                        ta = self.body.ty(last["ty"]) if last.get("ty") is not None else {}
+                    if ta.get("k") == "int" and not ta.get("signed") and ta["bits"] <= ty["bits"]:
+                        u = self.ub_op(a)
+                        tb = (1 << ta["bits"]) - 1
+                        return min(u, tb) if u is not None else tb
                 return tyub
             if d.kind == "assign":
                 u = self.ub_rv(d.rv)
